@@ -87,13 +87,9 @@ class Ops:
         if isinstance(v, VSeq):
             return z3.Length(self.st.heap[(v.ref, "seq")]) > 0
         if isinstance(v, VSet):
-            if (v.ref, "nonempty") in self.st.heap:
-                return self.st.heap[(v.ref, "nonempty")]
-            x = self.st.fresh("wit", v_sort(v.elem))
-            # non-emptiness of an array-set: exists an element (skolemised only in positive position)
-            raise Unsupported("truthiness of a symbolic set")
+            return self.st.heap[(v.ref, "set")] != z3.K(v_sort(v.elem), z3.BoolVal(False))
         if isinstance(v, VMap):
-            raise Unsupported("truthiness of a symbolic map")
+            return self.st.heap[(v.ref, "dom")] != z3.K(v_sort(v.key), z3.BoolVal(False))
         if isinstance(v, (VObj, VEnum, VFunc, VClass, VExc)):
             if isinstance(v, VEnum):
                 # str/int enums: truthiness of the value; the enums in the tree are all truthy
